@@ -646,6 +646,12 @@ func (ex *Exec) initGhosts(st *State, c *Contract) {
 	} else {
 		st.Ghost["metered"] = IntC(0)
 	}
+	// order of metering and computing (C32): opseen becomes 1 at a call of a dependency contract marked "arith";
+	// opmeter is the value ghost("metered") had at the latest such call (the one that produced the result: the
+	// shift estimates themselves divide the shift amount before anything is metered). Both are volatile: no frame obligation,
+	// and a call through a verified contract that does not list them under modifies leaves them unknown.
+	st.Ghost["opseen"] = IntC(0)
+	st.Ghost["opmeter"] = st.Ghost["metered"]
 	for n, tn := range ex.P.CS.GhostVars {
 		if tn == "mathint" {
 			st.Ghost[n] = IntC(0) // a mathematical integer in every encoding (counters that must not wrap)
